@@ -7,9 +7,21 @@ import TdModel.Lemmas.Bin
 namespace TdModel.C22
 open TdModel TdModel.Bin
 
-theorem maxMsgEnc_eq : maxMsgEnc = 1048576 := by simp [maxMsgEnc, Facts.C22.messageEncodeMaxBytes]
-theorem maxMsgDec_eq : maxMsgDec = 1048576 := by simp [maxMsgDec, Facts.C22.messageDecodeMaxBytes]
-theorem maxGunz_eq : maxGunz = 10485760 := rfl
+theorem msgLenInvalidEnc_iff (n : Int) : msgLenInvalidEnc n = true ↔ (n < 0 ∨ n > 1048576) := by
+  simp [msgLenInvalidEnc, Facts.C22.msgLenInvalidEnc]
+theorem msgLenInvalidDec_iff (n : Int) : msgLenInvalidDec n = true ↔ (n < 0 ∨ n > 1048576) := by
+  simp [msgLenInvalidDec, Facts.C22.msgLenInvalidDec]
+theorem msgLenValidEnc (n : Int) (h : 0 ≤ n ∧ n ≤ 1048576) : msgLenInvalidEnc n = false := by
+  cases hc : msgLenInvalidEnc n with
+  | false => rfl
+  | true => have := (msgLenInvalidEnc_iff n).mp hc; omega
+theorem msgLenValidDec (n : Int) (h : 0 ≤ n ∧ n ≤ 1048576) : msgLenInvalidDec n = false := by
+  cases hc : msgLenInvalidDec n with
+  | false => rfl
+  | true => have := (msgLenInvalidDec_iff n).mp hc; omega
+theorem gunzLimit_eq : gunzLimit = 10485760 := by decide
+theorem gunzBomb_iff (n : Nat) : gunzBomb n = true ↔ n ≥ 10485760 := by
+  simp [gunzBomb, Facts.C22.gzipBomb]; omega
 theorem containerID_lt : containerID < 2 ^ 32 := by decide
 theorem gzipID_lt : gzipID < 2 ^ 32 := by decide
 theorem resultID_lt : resultID < 2 ^ 32 := by decide
@@ -19,21 +31,19 @@ theorem resultID_lt : resultID < 2 ^ 32 := by decide
 theorem encodeMessage_ok (m : Message) (hb : m.bytes = m.body.length) (hl : m.body.length ≤ 1048576) :
     encodeMessage m = .ok (putInt64 m.id ++ putInt32 m.seqNo ++ putInt32 m.bytes ++ m.body) := by
   unfold encodeMessage
-  rw [maxMsgEnc_eq]
-  have : ¬ (m.bytes < 0 ∨ m.bytes > 1048576) := by omega
-  simp only [this, if_false, putRaw]
+  rw [msgLenValidEnc m.bytes (by omega)]
+  simp only [Bool.false_eq_true, if_false, putRaw]
 
 theorem encodeMessage_too_big (m : Message) (h : m.bytes > 1048576 ∨ m.bytes < 0) :
     encodeMessage m = .error errTooBig := by
   unfold encodeMessage
-  rw [maxMsgEnc_eq]
-  have : (m.bytes < 0 ∨ m.bytes > 1048576) := by omega
-  simp only [this, if_true]
+  rw [(msgLenInvalidEnc_iff m.bytes).mpr (by omega)]
+  simp only [if_true]
 
 theorem decodeMessage_fields (id seq n : Int) (tail : Bytes)
     (hid : -2 ^ 63 ≤ id ∧ id < 2 ^ 63) (hseq : -2 ^ 31 ≤ seq ∧ seq < 2 ^ 31) (hn : -2 ^ 31 ≤ n ∧ n < 2 ^ 31) :
     decodeMessage (putInt64 id ++ putInt32 seq ++ putInt32 n ++ tail) =
-      (if n < 0 ∨ n > 1048576 then .error errTooBig
+      (if msgLenInvalidDec n then .error errTooBig
        else match getN n.toNat tail with
          | .error e => .error e
          | .ok (body, r) => .ok (⟨id, seq, n, body⟩, r)) := by
@@ -43,7 +53,6 @@ theorem decodeMessage_fields (id seq n : Int) (tail : Bytes)
   rw [getInt32_putInt32 seq _ hseq]
   simp only
   rw [getInt32_putInt32 n _ hn]
-  simp only [maxMsgDec_eq]
   rfl
 
 theorem decodeMessage_encodeMessage (m : Message) (h : m.WF) (hl : m.body.length ≤ 1048576) (rest : Bytes) :
@@ -51,8 +60,8 @@ theorem decodeMessage_encodeMessage (m : Message) (h : m.WF) (hl : m.body.length
   refine ⟨_, encodeMessage_ok m h.bytes_eq hl, ?_⟩
   have hb := h.bytes_eq
   rw [List.append_assoc, decodeMessage_fields m.id m.seqNo m.bytes (m.body ++ rest) h.id_range h.seq_range (by omega)]
-  have : ¬ (m.bytes < 0 ∨ m.bytes > 1048576) := by omega
-  simp only [this, if_false]
+  rw [msgLenValidDec m.bytes (by omega)]
+  simp only [Bool.false_eq_true, if_false]
   have hn : m.bytes.toNat = m.body.length := by omega
   rw [getN_append m.body rest _ hn.symm]
 
@@ -117,15 +126,17 @@ theorem decodeUnencrypted_encodeUnencrypted (u : Unencrypted)
     decodeUnencrypted (encodeUnencrypted u ++ rest) = .ok (u, rest) := by
   unfold decodeUnencrypted encodeUnencrypted putRaw
   rw [List.append_assoc, List.append_assoc, List.append_assoc, getInt64_putInt64 0 _ (by omega)]
-  simp only [ne_eq, not_true_eq_false, if_false]
+  have hak : Facts.C22.unencAuthKeyBad 0 = false := by decide
+  simp only [hak, Bool.false_eq_true, if_false]
   rw [getInt64_putInt64 _ _ h]
   simp only
   rw [getInt32_putInt32 _ _ (by omega)]
   simp only
-  have h1 : ¬ ((u.data.length : Int) < 0) := by omega
-  have h2 : ¬ ((u.data.length : Int) > ((u.data ++ rest).length : Int)) := by
-    simp only [List.length_append]; omega
-  simp only [h1, h2, if_false, Int.toNat_natCast]
+  have h1 : Facts.C22.unencLenNegative (u.data.length : Int) = false := by
+    simp [Facts.C22.unencLenNegative]
+  have h2 : Facts.C22.unencLenBeyond (u.data.length : Int) ((u.data ++ rest).length : Int) = false := by
+    simp [Facts.C22.unencLenBeyond]; omega
+  simp only [h1, h2, Bool.false_eq_true, if_false, Int.toNat_natCast]
   rw [getN_append u.data rest _ rfl]
 
 /-! ### GZIP -/
@@ -137,34 +148,49 @@ theorem gzipUnframe_gzipFrame (c rest : Bytes) (h : c.length < 2 ^ 24) :
   simp only
   exact getBytes_putBytes c rest h
 
+theorem gunzLimitedLen_spec (outLen : Nat) (clean : Bool) :
+    gunzLimitedLen outLen clean =
+      (if outLen ≥ 10485760 then .error errBomb else if clean then .ok outLen else .error errGzip) := by
+  unfold gunzLimitedLen
+  rw [gunzLimit_eq]
+  by_cases h : outLen ≥ 10485760
+  · have hm : min outLen 10485760 = 10485760 := by omega
+    have hb : gunzBomb 10485760 = true := (gunzBomb_iff _).mpr (by omega)
+    simp [h, hm, hb]
+  · have hb : gunzBomb (min outLen 10485760) = false := by
+      cases hc : gunzBomb (min outLen 10485760) with
+      | false => rfl
+      | true => have := (gunzBomb_iff _).mp hc; omega
+    cases clean <;> simp [h, hb]
+
 theorem gunzLimited_ok {o : Bytes × Bool} {d : Bytes} (h : gunzLimited o = .ok d) :
     d = o.1 ∧ o.1.length < 10485760 ∧ o.2 = true := by
-  unfold gunzLimited gunzLimitedLen at h
-  rw [maxGunz_eq] at h
+  unfold gunzLimited at h
+  rw [gunzLimitedLen_spec] at h
   by_cases h1 : o.1.length ≥ 10485760
   · simp [h1] at h
   · simp only [h1, if_false] at h
     cases h2 : o.2 with
     | false => simp [h2] at h
     | true =>
-      simp only [h2, Bool.not_true, Bool.false_eq_true, if_false] at h
+      simp only [h2, if_true] at h
       injection h with h
-      exact ⟨h.symm, by omega, rfl⟩
+      exact ⟨by rw [← h]; simp, by omega, rfl⟩
 
 theorem gunzLimited_clean (d : Bytes) (h : d.length < 10485760) : gunzLimited (d, true) = .ok d := by
-  unfold gunzLimited gunzLimitedLen
-  rw [maxGunz_eq]
+  unfold gunzLimited
+  rw [gunzLimitedLen_spec]
   have : ¬ d.length ≥ 10485760 := by omega
   simp [this]
 
 theorem gunzLimited_bomb (o : Bytes × Bool) (h : o.1.length ≥ 10485760) : gunzLimited o = .error errBomb := by
-  unfold gunzLimited gunzLimitedLen
-  rw [maxGunz_eq]
+  unfold gunzLimited
+  rw [gunzLimitedLen_spec]
   simp [h]
 
 theorem gunzLimited_unclean (d : Bytes) (h : d.length < 10485760) : gunzLimited (d, false) = .error errGzip := by
-  unfold gunzLimited gunzLimitedLen
-  rw [maxGunz_eq]
+  unfold gunzLimited
+  rw [gunzLimitedLen_spec]
   have : ¬ d.length ≥ 10485760 := by omega
   simp [this]
 
@@ -193,10 +219,14 @@ theorem decodeMessageP_eq (b : Bytes) : decodeMessageP b = Out.ofExcept (decodeM
       | ok p =>
         obtain ⟨n, r3⟩ := p
         simp only [Out.ofExcept, Out.bind_ok]
-        by_cases hn : n < 0 ∨ n > maxMsgDec
-        · simp only [hn, if_true]
-        · simp only [hn, if_false]
-          have h0 : ¬ n < 0 := fun h => hn (Or.inl h)
+        cases hn : msgLenInvalidDec n with
+        | true => simp only [if_true]
+        | false =>
+          simp only [Bool.false_eq_true, if_false]
+          have h0 : ¬ n < 0 := by
+            intro h
+            have := (msgLenInvalidDec_iff n).mpr (Or.inl h)
+            rw [hn] at this; cases this
           rw [goMake_nonneg n h0]
           simp only [Out.bind_ok]
           rw [getNP_eq]
@@ -259,9 +289,10 @@ theorem decodeUnencryptedP_eq (b : Bytes) : decodeUnencryptedP b = Out.ofExcept 
   | ok p =>
     obtain ⟨ak, r1⟩ := p
     simp only [Out.ofExcept, Out.bind_ok]
-    by_cases hak : ak ≠ 0
-    · rw [if_pos hak, if_pos hak]
-    · rw [if_neg hak, if_neg hak]
+    cases hak : Facts.C22.unencAuthKeyBad ak with
+    | true => simp only [if_true]
+    | false =>
+      simp only [Bool.false_eq_true, if_false]
       rw [getInt64P_eq]
       cases getInt64 r1 with
       | error e => rfl
@@ -274,12 +305,18 @@ theorem decodeUnencryptedP_eq (b : Bytes) : decodeUnencryptedP b = Out.ofExcept 
         | ok p =>
           obtain ⟨n, r3⟩ := p
           simp only [Out.ofExcept, Out.bind_ok]
-          by_cases h0 : n < 0
-          · simp only [h0, if_true]
-          · simp only [h0, if_false]
-            by_cases h1 : n > (r3.length : Int)
-            · simp only [h1, if_true]
-            · simp only [h1, if_false]
+          cases h0' : Facts.C22.unencLenNegative n with
+          | true => simp only [if_true]
+          | false =>
+            simp only [Bool.false_eq_true, if_false]
+            have h0 : ¬ n < 0 := by
+              intro h
+              have : Facts.C22.unencLenNegative n = true := by simp [Facts.C22.unencLenNegative, h]
+              rw [h0'] at this; cases this
+            cases h1 : Facts.C22.unencLenBeyond n (r3.length : Int) with
+            | true => simp only [if_true]
+            | false =>
+              simp only [Bool.false_eq_true, if_false]
               rw [goMake_nonneg n h0]
               simp only [Out.bind_ok]
               rw [getNP_eq]
@@ -343,5 +380,56 @@ theorem decodeMessages_short (n : Nat) (b : Bytes) (hn : 0 < n) (hb : b.length <
   | succ n =>
     obtain ⟨e, he⟩ := decodeMessage_short b hb
     exact ⟨e, by simp only [decodeMessages, he]⟩
+
+/-! ### The interpreted (regenerated) encoders / decoder equal the transliterated ones -/
+
+theorem encodeMessageG_eq (m : Message) : encodeMessageG m = encodeMessage m := by
+  unfold encodeMessageG encodeMessage
+  cases msgLenInvalidEnc m.bytes with
+  | true => rfl
+  | false =>
+    simp [Facts.C22.opsMessageEncode, writeOps, writeOp, envMessage, putRaw]
+
+theorem encodeMessagesG_eq (ms : List Message) : encodeMessagesG ms = encodeMessages ms := by
+  induction ms with
+  | nil => rfl
+  | cons m ms ih => simp only [encodeMessagesG, encodeMessages, encodeMessageG_eq, ih]
+
+theorem encodeContainerG_eq (ms : List Message) : encodeContainerG ms = encodeContainer ms := by
+  unfold encodeContainerG encodeContainer
+  rw [encodeMessagesG_eq]
+  cases encodeMessages ms with
+  | error e => simp [Facts.C22.opsContainerEncode, writeOps, writeOp]
+  | ok body =>
+    simp [Facts.C22.opsContainerEncode, writeOps, writeOp, containerID, Facts.C22.messageContainerTypeID]
+
+theorem decodeMessageG_eq (b : Bytes) : decodeMessageG b = decodeMessage b := by
+  unfold decodeMessageG decodeMessage
+  simp only [Facts.C22.opsMessageDecode, readStores, readOp]
+  cases getInt64 b with
+  | error e => rfl
+  | ok p =>
+    obtain ⟨id, r1⟩ := p
+    simp only
+    cases getInt32 r1 with
+    | error e => rfl
+    | ok p =>
+      obtain ⟨seq, r2⟩ := p
+      simp only
+      cases getInt32 r2 with
+      | error e => rfl
+      | ok p =>
+        obtain ⟨n, r3⟩ := p
+        simp [lookupField]
+
+theorem encodeResultG_eq (x : Result) : encodeResultG x = some (encodeResult x) := by
+  simp [encodeResultG, encodeResult, Facts.C22.opsResultEncode, writeOps, writeOp, envResult, resultID,
+    Facts.C22.resultTypeID, putRaw]
+
+theorem encodeUnencryptedG_eq (u : Unencrypted) : encodeUnencryptedG u = some (encodeUnencrypted u) := by
+  simp [encodeUnencryptedG, encodeUnencrypted, Facts.C22.opsUnencryptedEncode, writeOps, writeOp, envUnencrypted, putRaw]
+
+theorem gzipFrameG_eq (c : Bytes) : gzipFrameG c = some (gzipFrame c) := by
+  simp [gzipFrameG, gzipFrame, Facts.C22.opsGzipEncode, writeOps, writeOp, gzipID, Facts.C22.gzipTypeID]
 
 end TdModel.C22
